@@ -129,21 +129,23 @@ theorem widen_rt [PeMore pe] {α} (t : ATag) (xs : List Val) (fs : List (Val →
   | err cs =>
     simp only [widen]
     split
-    · rw [List.append_assoc]
-      refine PeMore.more _ _ h ?_
-      intro c hc
-      rw [List.mem_append] at hc
-      rcases hc with hc | hc
-      · exact hex c hc
-      · simp only [List.mem_flatMap] at hc
-        obtain ⟨x, _, f, hf, hc⟩ := hc
-        have := hfs f hf x
-        cases hfx : f x with
-        | err c' => rw [hfx] at this hc; exact PeMore.mem _ this c hc
-        | ok a => rw [hfx] at hc; cases hc
-        | panic w => rw [hfx] at hc; cases hc
-        | nondet => rw [hfx] at hc; cases hc
-        | unmodelled w => rw [hfx] at hc; cases hc
+    · split
+      · trivial
+      · rw [List.append_assoc]
+        refine PeMore.more _ _ h ?_
+        intro c hc
+        rw [List.mem_append] at hc
+        rcases hc with hc | hc
+        · exact hex c hc
+        · simp only [List.mem_flatMap] at hc
+          obtain ⟨x, _, f, hf, hc⟩ := hc
+          have := hfs f hf x
+          cases hfx : f x with
+          | err c' => rw [hfx] at this hc; exact PeMore.mem _ this c hc
+          | ok a => rw [hfx] at hc; cases hc
+          | panic w => rw [hfx] at hc; cases hc
+          | nondet => rw [hfx] at hc; cases hc
+          | unmodelled w => rw [hfx] at hc; cases hc
     · exact h
   | ok a => exact h
   | panic w => exact h
